@@ -87,6 +87,17 @@ def jobs(tier):
                                     req("a", "c1"), req("b", "c1"), req("c", "c1")]), "families": fam, "family": "cumulative"})
     out.append({"program": prog(4, [fixed("a", 2), fixed("b", 2), cumul("c1", 2), worker("w"), req("a", "c1"), req("b", "c1"),
                                     req("a", "w"), req("b", "w")]), "families": fam, "family": "cumulative"})
+    # 6b. release / due dates on tasks that share a worker (time windows never relax the capacity rule)
+    for r, d_, dl in itertools.product((1, 2), (1, 2, 3), (False, True)):
+        a = fixed("a", 2, due_date=d_, due_date_is_deadline=dl)
+        b = fixed("b", 1, release_date=r)
+        out.append({"program": prog(H, [a, b, worker("w"), req("a", "w"), req("b", "w")]), "families": fam, "family": "dates-on-worker"})
+        if r == 1:
+            out.append({"program": prog(H, [a, b, cumul("c1", 2), fixed("c", 2), req("a", "c1"), req("b", "c1"), req("c", "c1")]), "families": fam, "family": "dates-on-cumulative"})
+            out.append({"program": prog(H, [a, b, worker("w"), worker("v"), select("s", ["w", "v"]), req("a", "s"), req("b", "w")]), "families": fam, "family": "dates-on-select"})
+    # 6c. work amount on a cumulative worker: the declared productivity bounds what it can contribute
+    for size, p_, wa in itertools.product((2, 3), (1, 2, 3), (2, 5)):
+        out.append({"program": prog(3, [var("a", work_amount=wa, max_duration=3), cumul("c1", size, productivity=p_), req("a", "c1")]), "families": fam, "family": "work-cumulative"})
     # 7. work amounts and productivities
     prods = (0, 1, 2, 3) if tier == "thorough" else (0, 1, 2)
     for p1, p2 in itertools.product(prods, prods):
